@@ -76,7 +76,7 @@ Qed.
    was ---- *)
 Record SameM (s0 s : st) : Prop := {
   sm_same : forall x, 1 <= x <= pageN s0 -> ~ In x (dirty s) -> fpg s x = fpg s0 x;
-  sm_mode : wal_mode s = false; sm_pn : pageN s = pageN s0;
+  sm_pn : pageN s = pageN s0;
   sm_sorted : StronglySorted N.lt (dirty s); sm_pos : forall x, In x (dirty s) -> 1 <= x;
   sm_fix : txid s = txid s0 /\ chk s = chk s0 /\ ltxdir s = ltxdir s0 /\ lockpg s = lockpg s0
 }.
@@ -95,15 +95,15 @@ Proof.
   destruct (i <? lenN (chk_pages s)); [|auto]. destruct (IH (set_page_chk s (i + 1) 0) (i + 1)) as [A B]. rewrite A, B. auto.
 Qed.
 
-Lemma same_step s0 s o s' : body_ok s0 o -> SameM s0 s -> step s o = (Done, s') -> SameM s0 s'.
+Lemma same_step s0 s o s' : body_ok s0 o -> SameM s0 s -> wal_mode s = false -> step s o = (Done, s') ->
+  SameM s0 s' /\ wal_mode s' = false.
 Proof.
-  intros Hb [Hs Hm Hp Hso Hpo Hfx] H. destruct o; cbn [body_ok] in Hb; try contradiction; cbn [step] in H.
+  intros Hb [Hs Hp Hso Hpo Hfx] Hm H. destruct o; cbn [body_ok] in Hb; try contradiction; cbn [step] in H.
   - (* OWrite *)
     unfold op_write_page in H. destruct (negb (writeable s)); [discriminate|]. rewrite Hm in H. inversion H; subst s'. clear H.
-    constructor.
+    split; [|exact Hm]. constructor.
     + intros x Hx Hnd. change (dirty (write_db_page (with_dirty s (insert_sorted pgno (dirty s))) pgno p)) with (insert_sorted pgno (dirty s)) in Hnd.
       rewrite insert_sorted_in in Hnd. rewrite fpg_write by lia. destruct (N.eqb_spec x pgno); [tauto|]. apply Hs; tauto.
-    + exact Hm.
     + exact Hp.
     + apply insert_sorted_sorted. exact Hso.
     + intros x Hx. change (In x (insert_sorted pgno (dirty s))) in Hx. apply insert_sorted_in in Hx. destruct Hx as [->|Hx]; [exact Hb|apply Hpo; exact Hx].
@@ -115,28 +115,37 @@ Proof.
       destruct (clear_from_dirty_pn (length (chk_pages (with_file s (firstn (N.to_nat (pageN s)) (dbfile s)))))
                   (with_file s (firstn (N.to_nat (pageN s)) (dbfile s))) (pageN s)) as [A B]. rewrite A, B. auto. }
     destruct Ed as [Ed Epn]. destruct (truncate_db_misc s (pageN s)) as [_ [Em _]].
-    constructor.
+    split; [|rewrite Em; exact Hm]. constructor.
     + intros x Hx Hnd. rewrite Ed in Hnd. rewrite fpg_truncate_db by lia. destruct (N.leb_spec x (pageN s)); [|lia]. apply Hs; assumption.
-    + rewrite Em. exact Hm.
     + rewrite Epn. exact Hp.
     + rewrite Ed. exact Hso.
     + rewrite Ed. exact Hpo.
     + destruct (pos_truncate_db s (pageN s)) as [A [B C]]. rewrite A, B, C.
       assert (lockpg (truncate_db s (pageN s)) = lockpg s) as -> by (unfold truncate_db, reset_after; rewrite lockpg_clear_from; reflexivity).
       exact Hfx.
-  - (* OCommitJournalFail *) inversion H; subst. constructor; assumption.
+  - (* OCommitJournalFail *) inversion H; subst. split; [constructor; assumption|exact Hm].
   - (* OZeroFill *)
-    unfold op_zero_fill in H. inversion H; subst s'. clear H. constructor; try assumption.
+    unfold op_zero_fill in H. inversion H; subst s'. clear H. split; [|exact Hm]. constructor; try assumption.
     intros x Hx Hnd. unfold fpg. cbn [dbfile with_file]. rewrite set_file_pg_at.
     destruct (Nat.eqb_spec (N.to_nat (x - 1)) (N.to_nat (pgno - 1))); [lia|]. apply Hs; assumption.
 Qed.
 
-Lemma same_run s0 : forall ops s s', Forall (body_ok s0) ops -> SameM s0 s -> run_group s ops = (0, s') -> SameM s0 s'.
+Lemma same_run s0 : forall ops s s', Forall (body_ok s0) ops -> SameM s0 s -> wal_mode s = false ->
+  run_group s ops = (0, s') -> SameM s0 s'.
 Proof.
-  induction ops as [|o r IH]; intros s s' Hb HS H; cbn [run_group] in H; [inversion H; subst; exact HS|].
+  induction ops as [|o r IH]; intros s s' Hb HS Hm H; cbn [run_group] in H; [inversion H; subst; exact HS|].
   inversion Hb as [|? ? Ho Hr]; subst. destruct (step s o) as [oc s1] eqn:E.
   destruct oc; cbn [ocode] in H; try (inversion H; fail).
-  apply (IH s1 s' Hr (same_step s0 s o s1 Ho HS E) H).
+  destruct (same_step s0 s o s1 Ho HS Hm E) as [HS1 Hm1]. apply (IH s1 s' Hr HS1 Hm1 H).
+Qed.
+
+Lemma same_run_mode s0 : forall ops s s', Forall (body_ok s0) ops -> SameM s0 s -> wal_mode s = false ->
+  run_group s ops = (0, s') -> wal_mode s' = false.
+Proof.
+  induction ops as [|o r IH]; intros s s' Hb HS Hm H; cbn [run_group] in H; [inversion H; subst; exact Hm|].
+  inversion Hb as [|? ? Ho Hr]; subst. destruct (step s o) as [oc s1] eqn:E.
+  destruct oc; cbn [ocode] in H; try (inversion H; fail).
+  destruct (same_step s0 s o s1 Ho HS Hm E) as [HS1 Hm1]. apply (IH s1 s' Hr HS1 Hm1 H).
 Qed.
 
 (* ---- primary and follower ---- *)
@@ -187,28 +196,21 @@ Proof.
     rewrite Forall_forall in Hacts. specialize (Hacts a Hin). destruct a; cbn [body_ok act_ok] in *; [tauto|reflexivity|exact I].
 Qed.
 
-Lemma same_start s : dirty s = [] -> wal_mode s = false -> SameM s s.
+Lemma same_start s : dirty s = [] -> SameM s s.
 Proof.
-  intros Hd Hm. constructor; try reflexivity; try assumption.
+  intros Hd. constructor; try reflexivity; try assumption.
   - rewrite Hd. constructor.
   - rewrite Hd. intros x [].
   - auto.
 Qed.
 
-(* a rollback-journal transaction of the primary (whatever its pages carry), the follower applying the file it published:
-   an argument about contents only *)
-Lemma follow_tx_sim k sP sR zf acts c sP' sR' :
-  dirty sP = [] -> wal_mode sP = false -> Sim sP sR ->
-  (forall p q, In (p, q) zf -> pageN sP < p) -> Forall (act_ok k) acts ->
-  run_group sP (hops sP (HTx zf acts c)) = (0, sP') -> lockpg sP' = lockpg sP ->
+(* the finalisation of the journal after any body that kept SameM, the follower applying the file it published: an argument
+   about contents only *)
+Lemma follow_commit_sim sP sR s2 c sP' sR' :
+  Sim sP sR -> SameM sP s2 -> step s2 (OCommitJournal c) = (Done, sP') -> lockpg sP' = lockpg sP ->
   run_recv sR (new_files sP sP') = Some sR' -> dirty sP' = [] /\ Sim sP' sR'.
 Proof.
-  intros Hd Hmode HS Hzf Hacts H El HR. cbn [hops] in H.
-    rewrite app_assoc, run_group_app in H.
-    destruct (run_group sP (zf_ops zf ++ act_ops (pageN sP) acts)) as [code s2] eqn:E2. destruct code; [|inversion H].
-    pose proof (same_run sP _ sP s2 (body_ops_ok k sP zf acts Hzf Hacts) (same_start sP Hd Hmode) E2) as SM.
-    destruct SM as [Ss Sm Sp Sso Spo [Ft [Fc [Fd Fl]]]].
-    apply run_group_one in H. cbn [step] in H.
+  intros HS SM H El HR. destruct SM as [Ss Sp Sso Spo [Ft [Fc [Fd Fl]]]]. cbn [step] in H.
     destruct (writeable s2 && (pageN s2 =? 0) && match dbfile s2 with [] => true | _ :: _ => false end) eqn:Einv.
     + unfold op_invalidate_journal in H. inversion H; subst sP'. clear H.
       apply andb_true_iff in Einv. destruct Einv as [Einv _]. apply andb_true_iff in Einv. destruct Einv as [_ Ep]. apply N.eqb_eq in Ep.
@@ -268,6 +270,20 @@ Proof.
              destruct (N.le_gt_cases x (pageN s2)); [assumption|exfalso; apply Hnj; right; lia]. }
            change (fpg (with_dir sR (if is_snapshot f then [f] else ltxdir sR ++ [f])) x) with (fpg sR x).
            rewrite (Ss x ltac:(lia) Hnd2). apply E; [lia|congruence].
+Qed.
+
+(* a rollback-journal transaction of the primary (whatever its pages carry) *)
+Lemma follow_tx_sim k sP sR zf acts c sP' sR' :
+  dirty sP = [] -> wal_mode sP = false -> Sim sP sR ->
+  (forall p q, In (p, q) zf -> pageN sP < p) -> Forall (act_ok k) acts ->
+  run_group sP (hops sP (HTx zf acts c)) = (0, sP') -> lockpg sP' = lockpg sP ->
+  run_recv sR (new_files sP sP') = Some sR' -> dirty sP' = [] /\ Sim sP' sR'.
+Proof.
+  intros Hd Hmode HS Hzf Hacts H El HR. cbn [hops] in H.
+  rewrite app_assoc, run_group_app in H.
+  destruct (run_group sP (zf_ops zf ++ act_ops (pageN sP) acts)) as [code s2] eqn:E2. destruct code; [|inversion H].
+  pose proof (same_run sP _ sP s2 (body_ops_ok k sP zf acts Hzf Hacts) (same_start sP Hd) Hmode E2) as SM.
+  apply run_group_one in H. apply (follow_commit_sim sP sR s2 c sP' sR' HS SM H El HR).
 Qed.
 
 (* one step of the primary, the follower applying what the step published *)
